@@ -25,6 +25,9 @@
 #include "preprocess_argv.h"
 #include "vector_string.h"
 
+#include <new>
+#include <cstdio>
+#include <cstdlib>
 #include <stdlib.h>
 #include <algorithm>
 #include <set>
@@ -601,7 +604,21 @@ int write_python_table(std::ostream &out) {
   return count;
 }
 
+/**
+ * Called by operator new when memory runs out.  We must not let that turn
+ * into an exception: much of the output is put together in string streams,
+ * and a stream swallows an exception thrown while it grows its buffer and
+ * quietly drops the data, so that we would go on to write an incomplete file
+ * and report success.
+ */
+static void
+out_of_memory() {
+  fputs("interrogate_module: out of memory\n", stderr);
+  std::_Exit(1);
+}
+
 int main(int argc, char *argv[]) {
+  std::set_new_handler(out_of_memory);
   extern char *optarg;
   extern int optind;
   int flag;
@@ -731,6 +748,11 @@ int main(int argc, char *argv[]) {
         output_buffer << interrogate_preamble_python_native << "\n";
       }
       output_buffer_str = output_buffer.str();
+      if (output_buffer.fail()) {
+        // The preamble did not fit into memory.
+        nout << "Out of memory writing " << output_code_filename << "\n";
+        status = 1;
+      }
     }
 
     std::ofstream output_code;
